@@ -109,6 +109,26 @@ def edit_new_sig(rng, new):
     return tags
 
 
+def fixed_pairs():
+    """deterministic pairs that run first: a field re-typed to a SUBCLASS of its type with another column type, the
+    old field carrying attributes the new one does not have"""
+    def fld(name, t, **attrs):
+        return {'name': name, 'type': t, 'attrs': attrs, 'related': None}
+
+    def project(fields):
+        return {'apps': [{'id': 'vapp', 'models': [{
+            'name': 'Alpha', 'table': 'vapp_alpha', 'unique_together': [], 'index_together': [], 'indexes': [],
+            'constraints': [], 'fields': [fld('id', 'AutoField', primary_key=True)] + fields}]}]}
+    out = []
+    for a, b in ((fld('n', 'IntegerField', db_index=True, db_column='n_col'), fld('n', 'BigIntegerField')),
+                 (fld('n', 'IntegerField', null=True, unique=True), fld('n', 'PositiveIntegerField')),
+                 (fld('d', 'DateField', null=True, db_index=True), fld('d', 'DateTimeField', null=True)),
+                 (fld('n', 'BigIntegerField', db_index=True), fld('n', 'IntegerField'))):
+        spec = project([a])
+        out.append((spec, sigs.sig_from_spec(spec), sigs.sig_from_spec(project([b])), [], ['retype_fixed']))
+    return out
+
+
 def gen_pair(rng):
     spec = sigs.gen_spec(rng, 'vapp')
     # a second index so that reordering is possible
@@ -117,6 +137,20 @@ def gen_pair(rng):
         if plain and rng.random() < 0.3:
             m['indexes'] = m['indexes'] + [{'name': '%s_jx' % m['name'].lower(), 'fields': [rng.choice(plain)]}]
     old = sigs.sig_from_spec(spec)
+    stored_form = rng.random() < 0.25
+    if stored_form:
+        # the old side is a STORED signature (read back from its JSON text: tuples have become lists), the new side
+        # comes from the models (tuples): a unique constraint over two fields is on both sides
+        from django.db import models as dm
+        from django_evolution.signature import ConstraintSignature
+        for m in old.get_app_sig('vapp').model_sigs:
+            plain = [f.field_name for f in m.field_sigs if f.field_type.__name__ not in ('ManyToManyField', 'TextField')
+                     and not f.get_attr_value('primary_key')]
+            if len(plain) >= 2:
+                m.constraint_sigs.append(ConstraintSignature(name='%s_uq' % m.model_name.lower(),
+                                                             constraint_type=dm.UniqueConstraint,
+                                                             attrs={'fields': tuple(plain[:2])}))
+                break
     muts, new = sigs.gen_sequence(rng, old, 'vapp', rng.randint(0, 4),
                                   kinds=['AddField'] * 3 + ['ChangeField'] * 4 + ['DeleteField'] * 2 +
                                   ['ChangeMeta'] * 2 + ['DeleteModel'])
@@ -124,6 +158,12 @@ def gen_pair(rng):
         return None
     new = new.clone()
     tags = edit_new_sig(rng, new)
+    if stored_form:
+        import json as _json
+        from collections import OrderedDict
+        from django_evolution.signature import ProjectSignature
+        old = ProjectSignature.deserialize(_json.loads(_json.dumps(old.serialize()), object_pairs_hook=OrderedDict))
+        tags.append('old_side_read_back_from_storage')
     # the target is what the developer's models say, not what a simulation makes of them: where the entries of
     # unique_together / index_together are the same as before, the models list them in the same order as before
     for a in new.app_sigs:
@@ -178,9 +218,10 @@ def run(ctx):
                 'reordered index list, re-typed field); non-trivial = the diff is non-empty; distinct by canonical JSON')
     cases = []
     tries = 0
+    fixed = fixed_pairs()
     while len(cases) < n and tries < 3 * n:
         tries += 1
-        g = gen_pair(ctx.rng)
+        g = fixed.pop(0) if fixed else gen_pair(ctx.rng)
         if g is None:
             continue
         spec, old, new, muts, tags = g
